@@ -323,6 +323,20 @@ def atom_forms(run, g, node, e, pol, env=None):
     e1 = subst_locals(run, g, node, e, env)
     if U(e1) != U(e):
         cands.append(e1)
+        # an atom whose operands are all known constants on this path (sock = None; ...; if sock is not None)
+        if all(isinstance(x, (ast.Constant, ast.Compare, ast.UnaryOp, ast.cmpop, ast.unaryop, ast.expr_context))
+               for x in ast.walk(e1)) and isinstance(e1, (ast.Compare, ast.UnaryOp)):
+            try:
+                import warnings
+                with warnings.catch_warnings():
+                    warnings.simplefilter('ignore')
+                    val = bool(eval(compile(ast.fix_missing_locations(ast.Expression(body=copy.deepcopy(e1))), '<atom>', 'eval'),
+                                    {'__builtins__': {}}))
+                if val != pol:
+                    return None
+                return {('True', True)}
+            except Exception:
+                pass
     for c in list(cands):
         # inline one-line properties anywhere inside the atom
         c2 = _InlineProps(run, ctx).visit(copy.deepcopy(c))
@@ -668,7 +682,7 @@ def helper_paths(run, g, n, depth=0):
     return combos or []
 
 
-def path_conditions(run, g, rd, start, target, limit=5000, through_exc=False, prune=True, _depth=0):
+def path_conditions(run, g, rd, start, target, limit=5000, through_exc=False, prune=True, _depth=0, avoid=()):
     """Literal sets of every simple path start -> target (non-exception edges).  Each element is a ``Lits`` frozenset
     of (text, polarity) containing every equivalent form of each atom; ``.groups`` lists the atoms one by one."""
     out = []
@@ -689,7 +703,7 @@ def path_conditions(run, g, rd, start, target, limit=5000, through_exc=False, pr
         for (m, l) in n.succ:
             if l.startswith('exc:') and not through_exc:
                 continue
-            if m in seen:
+            if m in seen or m in avoid:
                 continue
             add = set()
             grp = groups
@@ -1294,3 +1308,71 @@ def bool_table(e, atoms):
 def call_args_by_name(call, func):
     """[expr or None] for each non-self parameter of func, positional or keyword."""
     return [arg_of(call, func, p) for p in func.params if p not in ('self', 'cls')]
+
+
+# ------------------------------------------------------------------------------ gated housekeeping generator
+def hk_iters(run, g, S='session.WebsocketSession'):
+    """The for-loops of run() that iterate the housekeeping generator S._regular(...).
+
+    [(forinit node, gate_ok, description, [(cfg, node, call) of the S._regular(...) creation])] - the generator may be
+    created in the local closure run._regular (gate = the closure's guards) or in run() itself on a path selected by
+    guards between the creation and the loop (gate = those guards); in both shapes the gate must be `self._ready` alone
+    and the not-ready alternative an empty iterable."""
+    q = g.ctx.func.qual
+    out = []
+    for n in g.live_nodes():
+        if n.kind != 'forinit':
+            continue
+        it = n.ast
+        if isinstance(it, ast.Call):
+            ts = run.types.call_targets(it, g.ctx)
+            clos = [t for t in ts if t.kind == 'func' and t.func.parent is not None and t.func.parent.qual == q]
+            if clos and len(ts) == 1:
+                cg = run.cfg(clos[0].func.qual)
+                rc = calls_to(run, cg, S + '._regular')
+                if not rc:
+                    continue
+                ok = len(rc) == 1 and match_exact(guard_atom_sets(cg, rc[0][0], within=rc[0][1]), [{('self._ready', True)}])
+                out.append((n, ok, 'closure %s' % clos[0].func.qual, [(cg, a, b) for (a, b) in rc]))
+                continue
+            if any(t.kind == 'func' and t.qual == S + '._regular' for t in ts):
+                out.append((n, False, 'ungated S._regular(...) iterated directly', [(g, n, it)]))
+                continue
+        cases = value_cases(run, g, n, it)
+        hk = [(c, v, site) for (c, v, site) in cases if isinstance(v, ast.Call)
+              and any(t.kind == 'func' and t.qual == S + '._regular' for t in run.types.call_targets(v, g.ctx))]
+        if not hk:
+            continue
+        base = set(guard_atom_sets(g, n))
+        ok = True
+        for (c, v, site) in hk:
+            own = [f for f in guard_atom_sets(g, site, within=v) if f not in base]
+            ok = ok and match_exact(own, [{('self._ready', True)}])
+        for (c, v, site) in cases:
+            if (c, v, site) in hk:
+                continue
+            empty = isinstance(v, (ast.Tuple, ast.List)) and not v.elts
+            ok = ok and empty
+        out.append((n, ok, 'selected in %s' % q, [(g, site, v) for (c, v, site) in hk]))
+    return out
+
+
+def concat_parts(e):
+    """The operands, in order, of a bytes concatenation written as b''.join((a, b, c)) / b''.join([a, b, c]) or as
+    a + b + c; None for anything else."""
+    if isinstance(e, ast.Call) and isinstance(e.func, ast.Attribute) and e.func.attr == 'join' \
+            and isinstance(e.func.value, ast.Constant) and e.func.value.value in (b'', '') and len(e.args) == 1 \
+            and isinstance(e.args[0], (ast.Tuple, ast.List)) and not e.keywords:
+        return list(e.args[0].elts)
+    if isinstance(e, ast.BinOp) and isinstance(e.op, ast.Add):
+        out = []
+
+        def rec(x):
+            if isinstance(x, ast.BinOp) and isinstance(x.op, ast.Add):
+                rec(x.left)
+                rec(x.right)
+            else:
+                out.append(x)
+        rec(e)
+        return out
+    return None
